@@ -42,12 +42,12 @@ CHECKS.update({
 
 CHECKS.update({
  "C04": ("model_checking",
-         "All ledgers of <=4 (thorough <=5) transactions from a 16-transaction alphabet (three dates, repeated dates, file order independent of date order, multi-commodity/cancelling/inferred/assigned/priced/sub-precision postings) x {no precision, X 2dp}; for each, all 36 (start,end) pairs incl. empty and inverted ranges are queried on the real Ledger, the register (all accounts and per account) is listed, and: balance = sum of register; range balance = sum of reference postings dated in [start,end) up to rounding; adjacent ranges add up for every split point; no commodity with exact zero total is shown; a slice also goes through the CLI (balance, register: final running total = balance).",
+         "All ledgers of <=4 (thorough <=5) transactions from a 17-transaction alphabet (three dates, a transaction with an effective date, repeated dates, file order independent of date order, multi-commodity/cancelling/inferred/assigned/priced/sub-precision postings) x {no precision, X 2dp}; for each, all 36 (start,end) pairs incl. empty and inverted ranges are queried on the real Ledger, the register (all accounts and per account) is listed, and: balance = sum of register; range balance = sum of reference postings dated in [start,end) up to rounding; adjacent ranges add up for every split point; no commodity with exact zero total is shown; a slice also goes through the CLI (balance, register: final running total = balance).",
          "Trusted: RefLedger per-posting amounts, exact rational sums. A range report may equal the exact sum or its rounding to declared precision (any midpoint rule).",
          "DESIGN.md §5 C04",
          "explicit enumeration of transaction histories x exhaustive date-range queries, real reports compared with each other and with the reference ledger"),
  "C10": ("model_checking",
-         "All ledgers of <=4 (thorough <=5) transactions from an 8-transaction alphabet carrying holdings and cost-derived prices (direct, reverse-only, two-hop) x target precision {none,2,0}, plus all ledgers of <=2 (thorough <=3) transactions x 5 price databases (a direct price competing with ledger prices, a three-hop chain through commodities that occur only in the database in three file orders, two dates newest first); for each, every target {A,B,T} x {up-to-date at 3 dates, historical} x 9 date ranges is reported by the real Ledger::balance with conversion, for the ledger as written and with all amounts x3 (linearity): 3.0 M converted reports (quick) compared with reference holdings converted by the brute-force price reference; must fail iff a non-zero needed amount has no rate; no unconverted commodity may remain; rounding only to the target's precision.",
+         "All ledgers of <=4 (thorough <=5) transactions from a 9-transaction alphabet carrying holdings and cost-derived prices (direct, reverse-only, two-hop, a sale priced by its total) x target precision {none,2,0}, plus all ledgers of <=2 (thorough <=3) transactions x 5 price databases (a direct price competing with ledger prices, a three-hop chain through commodities that occur only in the database in three file orders, two dates newest first); for each, every target {A,B,T} x {up-to-date at 3 dates, historical} x 9 date ranges is reported by the real Ledger::balance with conversion, for the ledger as written and with all amounts x3 (linearity): 3.0 M converted reports (quick) compared with reference holdings converted by the brute-force price reference; must fail iff a non-zero needed amount has no rate; no unconverted commodity may remain; rounding only to the target's precision.",
          "Trusted: RefPrices (c09), exact rational holdings. Relative tolerance 1e-13 for reciprocal rates; ties DON'T-CARE (none in this alphabet).",
          "DESIGN.md §5 C10",
          "explicit enumeration of histories x exhaustive report configurations vs reference conversion model"),
